@@ -79,13 +79,27 @@ def gen_case(rng):
     if rng.random() < 0.06:           # x[lo:hi] = x with the very same object on both sides
       return ['setslice', n, x, lo, hi, step, asbits, ['b', n, x], 'alias']
     return ['setslice', n, x, lo, hi, step, asbits, list(v)]
-  if kind == 'getbit': return ['getbit', n, x, gen_bound(rng, n, False)]
+  if kind == 'getbit':
+    i = gen_bound(rng, n, False)
+    if rng.random() < 0.35:
+      # the index as a Bits object (the x[sel] mux idiom), of the smallest width that holds it or a little wider; targets
+      # of width 2^W - 1 with an all-ones W-bit index are one past the end
+      if rng.random() < 0.5:
+        W = rng.randint(1, 6); n = (1 << W) - 1; x = bu.rand_value(rng, n); i = rng.choice([n, n, n - 1, 0, rng.randint(0, n)])
+      else:
+        W = max(1, i.bit_length()) + rng.choice([0, 0, 1, 3]) if i >= 0 else 0
+      if i >= 0 and W and i < (1 << W): return ['getbit', n, x, i, W]
+    return ['getbit', n, x, i]
   if kind == 'setbit':
     r = rng.random()
     if r < 0.4: v = ('b', 1, rng.randint(0, 1))
     elif r < 0.5: v = ('b', rng.choice([2, 3, n]), rng.randint(0, 1))
     else: v = ('i', rng.choice([0, 1, -1, 2, -2, 3, 255]))
-    return ['setbit', n, x, gen_bound(rng, n, False), list(v)]
+    i = gen_bound(rng, n, False)
+    if rng.random() < 0.3 and i >= 0:
+      W = max(1, i.bit_length()) + rng.choice([0, 0, 1, 3])
+      return ['setbit', n, x, i, list(v), W]
+    return ['setbit', n, x, i, list(v)]
   if kind == 'concat':
     k = rng.randint(1, 5)
     parts = []
@@ -155,11 +169,12 @@ def impl_eval(c):
       return x
     return write_checked(f, x, c[1], c[2], v, c[7])
   if k == 'getbit':
-    x = bu.mk(c[1], c[2]); return bu.run_read_fresh(lambda: x[c[3]], x)
+    x = bu.mk(c[1], c[2]); i = Bits(c[4], c[3]) if len(c) > 4 else c[3]
+    return bu.run_read_fresh(lambda: x[i], x)
   if k == 'setbit':
-    x = bu.mk(c[1], c[2]); v = bu.opnd_real(c[4])
+    x = bu.mk(c[1], c[2]); v = bu.opnd_real(c[4]); i = Bits(c[5], c[3]) if len(c) > 5 else c[3]
     def f():
-      x[c[3]] = v
+      x[i] = v
       return x
     return write_checked(f, x, c[1], c[2], v, c[4])
   if k == 'concat':
@@ -284,7 +299,8 @@ CORPUS = [
   ['setslice', 8, 0xab, 0, 4, 0, False, ['i', 1]],
   ['setslice', 8, 0x5a, None, None, None, False, ['b', 8, 0x5a], 'alias'], ['setslice', 8, 0x5a, 0, 8, None, False, ['b', 8, 0x5a], 'alias'],
   ['setslice', 8, 0x5a, 0, 4, None, False, ['b', 8, 0x5a], 'alias'],
-  ['getbit', 8, 0xab, 8], ['getbit', 8, 0xab, -1], ['getbit', 8, 0xab, 7], ['setbit', 8, 0xab, 2, ['i', -1]],
+  ['getbit', 8, 0xab, 8], ['getbit', 8, 0xab, -1], ['getbit', 8, 0xab, 7], ['getbit', 3, 5, 3, 2], ['getbit', 7, 0x55, 7, 3], ['getbit', 1, 0, 1, 1],
+  ['getbit', 31, 0x7fffffff, 31, 5], ['getbit', 3, 5, 2, 2], ['setbit', 3, 5, 3, ['i', 1], 2], ['setbit', 8, 0xab, 2, ['i', -1]],
   ['setbit', 8, 0xab, 2, ['i', 2]], ['setbit', 8, 0xab, 2, ['b', 2, 1]], ['setbit', 8, 0xab, 8, ['i', 1]],
   ['concat', [[512, 1], [511, 3]]], ['concat', [[512, 1], [512, 3]]], ['concat', [[1, 1], [1, 0], [2, 3]]],
   ['trunc', 8, 0xab, 9], ['trunc', 8, 0xab, 0], ['zext', 8, 0xab, 7], ['zext', 8, 0xab, 1024], ['sext', 8, 0xab, 16],
